@@ -47,7 +47,7 @@ func refMatchesPlain(attrs Attributes, c Constraint) bool {
 }
 
 // Agent attributes with arbitrary names and comma-free values against up to 3 constraints.
-//verif:entry HarnessSatisfy unwind=8 reach=accepted,refused
+//verif:entry HarnessSatisfy unwind=8 conform=12 reach=accepted,refused
 func HarnessSatisfy() {
 	na := vrt.IntRange("nattrs", 0, 3)
 	nc := vrt.IntRange("ncts", 0, 3)
@@ -73,7 +73,7 @@ func HarnessSatisfy() {
 }
 
 // Comma-separated attribute values (concrete lists, symbolic wanted value).
-//verif:entry HarnessSatisfyLists unwind=8 reach=accepted,refused
+//verif:entry HarnessSatisfyLists unwind=8 conform=12 reach=accepted,refused
 func HarnessSatisfyLists() {
 	lists := []string{"a,b", "a,b,c", "b", ",", "a,", "ab,c"}
 	attrs := Attributes{c05Attr("machine", lists[vrt.IntRange("list", 0, len(lists)-1)]), c05Attr("rack", "r1")}
@@ -105,7 +105,7 @@ func effective(cts Constraints, attribute string) (string, int) {
 }
 
 // A nearer definition of the same attribute overrides a farther one; everything else is kept.
-//verif:entry HarnessMergeParent unwind=8 reach=override,inherit,own
+//verif:entry HarnessMergeParent unwind=8 conform=12 reach=override,inherit,own
 func HarnessMergeParent() {
 	mk := func(prefix string, n int) Constraints {
 		cts := Constraints{}
